@@ -378,6 +378,8 @@ class Reader:
                 data = self.consume("STRING")[1]
                 data = unhexlify(data)
                 ins = ir.LiteralData(data, name)
+            elif a == "undefined":
+                ins = ir.Undefined(name, ty)
             else:
                 raise NotImplementedError(a)
         elif self.peek in ["INT", "FLOAT"]:
